@@ -19,11 +19,22 @@ Tie to the code, four groups of obligations per run:
  (C) Posterior(likelihood, JointPrior): value, gradient, cost, cost_gradient by interval goals;
  (D) generate_initial_guesses: scripted draws -> samples -> stable sort by the code's own
      cost -> first n, compared inside Coq;
- (E) UniformPrior.gradient after the caller updated the returned array in place.
+ (E) UniformPrior.gradient after the caller updated the returned array in place;
+ (H) call histories on one object (JointPrior / stand-alone prior / Posterior + its prior): the
+     caller creates parameter vectors, calls gradient / cost_gradient / sample / Posterior.gradient /
+     Posterior.cost_gradient, KEEPS every array it is handed (no copy), steps parameter vectors in
+     place and passes the same array object again, accumulates into gradients it was given,
+     evaluates the density in between -- and at the end re-reads every array it holds.  The
+     heap-level model (Model/PriorHistory.v: which array object each method allocates, fills and
+     returns) is run on the same history inside Coq and must reproduce all of them; theorems
+     Properties/C06History.v say that model reads like the function-level one for ALL histories.
 
 Failing-input search: brute-force per-index evaluation from the *unmerged* component list
 (exact rationals for gradient / bounds / sample positions; an interval goal on the sum of the
-textbook per-index log-densities for the value); central differences for gradients.
+textbook per-index log-densities for the value); central differences for gradients; for histories
+private copies taken when each array is handed over (+ the caller's own additions) against what the
+array reads at the end, and the per-index derivative at the argument's contents at call time; a
+failing history is shrunk (updates dropped, calls replaced by plain arrays, unused arrays cut).
 """
 from __future__ import annotations
 
@@ -48,6 +59,9 @@ THEOREMS = ["C06_gauss_value", "C06_exp_value", "C06_unif_value", "C06_outside_s
             "C06_joint_gradient_is_derivative", "C06_joint_bounds", "C06_joint_sample",
             "C06_posterior_sum", "C06_posterior_gradient_is_derivative",
             "C06_guesses_sorted_prefix", "C06_guesses_stable", "C06_uniform_gradient_alias_refuted"]
+
+HISTORY_THEOREMS = ["C06_history_refines_function_level", "C06_history_call_value", "C06_history_results_persist",
+                    "C06_history_without_updates", "C06_history_shared_buffer_refuted"]
 
 HEADER = """From Coq Require Import List QArith ZArith.
 From IT Require Import Model.JointPrior.
@@ -464,6 +478,333 @@ def run_single(c, theta, style):
             "cgrad": [C.frac(x) for x in cg]}
 
 
+
+# ---------------------------------------------------------------- group H : call histories
+HEADER_H = """From Coq Require Import List QArith ZArith.
+From IT Require Import Model.JointPrior Model.PriorHistory.
+Import ListNotations.
+Open Scope Q_scope.
+"""
+HTOL = Fraction(1, 10 ** 12)
+METH_NAME = {"grad": "gradient", "cgrad": "cost_gradient", "sample": "sample",
+             "pgrad": "Posterior.gradient", "pcgrad": "Posterior.cost_gradient"}
+
+
+def hist_object(r, typ):
+    """Description of the object a history runs on.
+    joint: JointPrior; comp: one stand-alone prior on some positions of a longer theta;
+    post: Posterior(likelihood, JointPrior) (the prior is also called directly)."""
+    if typ == "comp":
+        kind = r.choice(["gauss", "exp", "unif"])
+        m = r.randint(1, 4)
+        nth = m + r.randint(0, 3)
+        exact = r.random() < 0.6
+        p1, p2 = gen_params(r, kind, m, exact)
+        c = {"kind": kind, "p1": p1, "p2": p2, "vars": r.sample(range(nth), m)}
+        return {"type": "comp", "n": nth, "rlen": m, "comps": [c], "exact": exact, "style": r.randrange(3)}
+    if typ == "post":
+        lc = L5.gen_case(r, r.randrange(3))
+        p = len(lc["theta"])
+        jc = gen_joint(r, nmax=p, cmax=p)
+        while jc["n"] != p or not jc["exact"]:
+            jc = gen_joint(r, nmax=p, cmax=p)
+        return {"type": "post", "n": p, "rlen": p, "comps": jc["comps"], "exact": True, "lc": lc, "style": r.randrange(3)}
+    jc = gen_joint(r)
+    return {"type": "joint", "n": jc["n"], "rlen": jc["n"], "comps": jc["comps"], "exact": jc["exact"], "style": r.randrange(3)}
+
+
+def gen_history(r, od, big=False):
+    """Symbolic operations (see Model/PriorHistory.v):
+       ("new", theta) | ("call", method, k) | ("add", k, values) | ("value", k, "call"|"cost").
+    Every history contains: a gradient call, an in-place update by the caller of the array it got,
+    a change of the parameter vector (stepped in place, or a new one), another gradient call."""
+    n, rl = od["n"], od["rlen"]
+    jc = {"n": n, "comps": od["comps"]}
+    ops, lens, depth = [], [], []
+
+    def new_theta():
+        th, _ = gen_theta(r, jc)
+        ops.append(("new", th))
+        lens.append(n)
+        depth.append(0)
+
+    def args():       # arrays usable as a parameter vector (results of results of results are not: bits)
+        return [i for i, (l, d) in enumerate(zip(lens, depth)) if l == n and d <= 1]
+
+    def call(m, k):
+        ops.append(("call", m, k))
+        lens.append(rl)
+        depth.append(0 if m == "sample" else depth[k] + 1)
+
+    def add(k):
+        ops.append(("add", k, [Fraction(r.randint(-64, 64), r.choice([1, 2, 4, 8, 16])) for _ in range(lens[k])]))
+
+    meths = ["grad", "grad", "grad", "cgrad", "sample"]
+    if od["type"] == "post":
+        meths += ["pgrad", "pgrad", "pcgrad"]
+    new_theta()
+    if r.random() < 0.6:
+        new_theta()
+    for _ in range(r.randint(2, 7 if not big else 10)):
+        u = r.random()
+        if u < 0.5:
+            m = r.choice(meths)
+            fresh = [i for i in args() if depth[i] == 0]
+            k = 0 if m == "sample" else (r.choice(fresh) if r.random() < 0.8 else r.choice(args()))
+            call(m, k)
+        elif u < 0.62:
+            new_theta()
+        elif u < 0.87:
+            add(r.randrange(len(lens)))
+        else:
+            ops.append(("value", r.choice(args()), r.choice(["call", "cost"])))
+    gm = r.choice(["grad", "grad", "cgrad"] + (["pgrad"] if od["type"] == "post" else []))
+    a = r.choice([i for i in args() if depth[i] == 0])
+    call(gm, a)
+    first = len(lens) - 1
+    if r.random() < 0.7:
+        add(first)
+    b = a
+    if r.random() < 0.5:
+        add(a)                    # the optimiser steps its x in place and asks again
+    else:
+        new_theta()
+        b = len(lens) - 1
+    call(gm if r.random() < 0.7 else r.choice(meths[:4]), b)
+    if r.random() < 0.3:
+        ops.append(("value", b, "cost"))
+    return ops
+
+
+def hist_objects(od):
+    """Build the real objects: (prior, posterior or None)."""
+    import inference.priors as P
+    from inference.posterior import Posterior
+    if od["type"] == "comp":
+        return build_comp(od["comps"][0], od["style"]), None
+    objs = [build_comp(c, style=(i + od["style"]) % 3) for i, c in enumerate(od["comps"])]
+    prior = P.JointPrior(objs, od["n"])
+    if od["type"] == "post":
+        return prior, Posterior(likelihood=L5.build(od["lc"]), prior=prior)
+    return prior, None
+
+
+def exec_history(od, ops, rseed, ur):
+    """Run a history on the real objects.  The caller keeps the very arrays it is handed (`held`);
+    `shadow` are private copies taken at the moment each array came into the caller's hands, updated
+    only by the caller's own in-place additions -- what every held array must still contain.
+    Returns status, filled ops (scripts / likelihood gradients recorded), finals, shadows, per-call
+    records and the first (op index, held index) at which a held array stopped matching its shadow."""
+    import inference.priors as P
+    out = {"status": "ok", "ops": [], "calls": {}, "first_change": None, "mags": []}
+    held, shadow = [], []
+    old = P.rng
+    try:
+        with warnings.catch_warnings(), quiet():
+            prior, post = hist_objects(od)
+            for t, op in enumerate(ops):
+                if op[0] == "new":
+                    a = np.array([float(x) for x in op[1]], dtype=float)
+                    held.append(a)
+                    shadow.append(a.copy())
+                    out["ops"].append(op)
+                elif op[0] == "call":
+                    m, k = op[1], op[2]
+                    arg = held[k]
+                    at_call = np.array(arg, dtype=float, copy=True)
+                    extra = op[3] if len(op) > 3 else None
+                    if m == "sample":
+                        rec = RecRNG(rseed * 1000 + t, ur) if extra is None else ReplayRNG(extra)
+                        P.rng = rec
+                        try:
+                            res = prior.sample()
+                        finally:
+                            P.rng = old
+                        if extra is None:
+                            extra = rec.script()
+                    elif m == "grad":
+                        res = prior.gradient(arg)
+                    elif m == "cgrad":
+                        res = prior.cost_gradient(arg)
+                    else:
+                        extra = [C.frac(x) if math.isfinite(x) else None
+                                 for x in np.asarray(post.likelihood.gradient(at_call.copy()), dtype=float)]
+                        res = post.gradient(arg) if m == "pgrad" else post.cost_gradient(arg)
+                        try:      # magnitude of the terms summed by the likelihood (tolerance scaling only)
+                            out["mags"].append(max(L5.magnitudes(dict(od["lc"], theta=[float(x) for x in at_call]))[1]))
+                        except Exception:
+                            out["mags"].append(math.inf)
+                    if not isinstance(res, np.ndarray) or res.ndim != 1 or res.shape[0] != od["rlen"]:
+                        return dict(out, status="shape", error=f"{METH_NAME[m]} returned {type(res).__name__} "
+                                    f"of shape {getattr(res, 'shape', None)} at operation {t}")
+                    held.append(res)
+                    shadow.append(np.array(res, dtype=float, copy=True))
+                    out["calls"][len(held) - 1] = {"op": t, "method": m, "arg": k, "theta_at_call": at_call,
+                                                   "returned": shadow[-1].copy(), "extra": extra}
+                    out["ops"].append(("call", m, k, extra))
+                elif op[0] == "add":
+                    v = np.array([float(x) for x in op[2]], dtype=float)
+                    held[op[1]] += v
+                    shadow[op[1]] += v
+                    out["ops"].append(op)
+                else:
+                    obj = post if (post is not None and t % 2) else prior
+                    float(obj(held[op[1]]) if op[2] == "call" else obj.cost(held[op[1]]))
+                    out["ops"].append(op)
+                if out["first_change"] is None:
+                    for j, (h, sh) in enumerate(zip(held, shadow)):
+                        if not np.array_equal(np.asarray(h, dtype=float), sh, equal_nan=True):
+                            out["first_change"] = (t, j)
+                            break
+    except Exception as e:
+        return dict(out, status="exception", error=repr(e))
+    finally:
+        P.rng = old
+    out["finals"] = [np.array(h, dtype=float, copy=True) for h in held]
+    out["shadows"] = shadow
+    return out
+
+
+def hist_owner(od, pos):
+    """(theta index, kind, p1, p2) of result position `pos` (unmerged list)."""
+    if od["type"] == "comp":
+        c = od["comps"][0]
+        return c["vars"][pos], c["kind"], Fraction(c["p1"][pos]), Fraction(c["p2"][pos])
+    kind, a, b = owner_table(od["comps"])[pos][0]
+    return pos, kind, a, b
+
+
+def oracle_history(od, ex):
+    """The property on the implementation alone: (1) every array the caller holds still reads what it
+    read when it was handed over (plus the caller's own additions); (2) what a gradient call handed
+    over was the per-index derivative at the contents of its argument at the time of the call."""
+    bad = []
+    if ex["first_change"] is not None:
+        t, j = ex["first_change"]
+        what = (f"the array returned by {METH_NAME[ex['calls'][j]['method']]} (operation {ex['calls'][j]['op']}, "
+                f"parameter vector {ex['calls'][j]['theta_at_call'].tolist()})" if j in ex["calls"]
+                else "the parameter vector the caller passed in")
+        o = ex["ops"][t]
+        by = {"call": lambda: f"the later call of {METH_NAME[o[1]]}", "add": lambda: f"the caller's update of a different array (held #{o[1]})",
+              "value": lambda: "the later evaluation of the log-probability / cost", "new": lambda: "the creation of a new array"}[o[0]]()
+        now = ex["finals"][j].tolist() if "finals" in ex else None
+        bad.append(f"{what} was {ex['calls'][j]['returned'].tolist() if j in ex['calls'] else 'as created'} when handed over "
+                   f"and reads {now} at the end of the history: it was changed by {by} (operation {t})")
+    for j, cinfo in ex["calls"].items():
+        m = cinfo["method"]
+        if m == "sample" or not np.all(np.isfinite(cinfo["returned"])) or not np.all(np.isfinite(cinfo["theta_at_call"])):
+            continue
+        th = [C.frac(x) for x in cinfo["theta_at_call"]]
+        for pos in range(od["rlen"]):
+            i, kind, a, b = hist_owner(od, pos)
+            want = (a - th[i]) / (b * b) if kind == "gauss" else ((-1 / a if th[i] >= 0 else Fraction(0)) if kind == "exp" else Fraction(0))
+            if m in ("pgrad", "pcgrad"):
+                if cinfo["extra"][pos] is None:
+                    continue
+                want += cinfo["extra"][pos]
+            if m in ("cgrad", "pcgrad"):
+                want = -want
+            got = C.frac(cinfo["returned"][pos])
+            scale = abs(want) + abs(got) + (abs(cinfo["extra"][pos]) if m in ("pgrad", "pcgrad") else 0)
+            if abs(got - want) > Fraction(1, 10 ** 9) * scale + Fraction(1, 10 ** 30):
+                bad.append(f"{METH_NAME[m]} (operation {cinfo['op']}) returned {float(got)!r} at position {pos} for the parameter "
+                           f"vector {cinfo['theta_at_call'].tolist()}; the derivative there is {float(want)!r}")
+                break
+    return bad
+
+
+def shrink_history(od, ops, rseed, ur):
+    """Smaller history that still fails the oracle: drop updates / evaluations, turn calls into plain
+    arrays (indices stay valid), cut unused arrays from the end."""
+    def fails(o):
+        ex = exec_history(od, o, rseed, ur)
+        return ex["status"] == "ok" and bool(oracle_history(od, ex))
+    ops = list(ops)
+    if not fails(ops):
+        return ops
+    changed = True
+    while changed:
+        changed = False
+        for t in range(len(ops) - 1, -1, -1):
+            o = ops[t]
+            if o[0] in ("add", "value"):
+                cand = ops[:t] + ops[t + 1:]
+            elif o[0] == "call" and od["rlen"] == od["n"]:
+                cand = ops[:t] + [("new", [Fraction(0)] * od["n"])] + ops[t + 1:]
+            else:
+                continue
+            if fails(cand):
+                ops, changed = cand, True
+        while len(ops) > 1 and ops[-1][0] == "new" and fails(ops[:-1]):
+            ops, changed = ops[:-1], True
+        # an unused array in the middle: remove it and renumber the later references
+        prod = [i for i, o in enumerate(ops) if o[0] in ("new", "call")]
+        for j in range(len(prod) - 1, -1, -1):
+            used = any((o[0] == "call" and o[2] == j and o[1] != "sample") or (o[0] in ("add", "value") and o[1] == j) for o in ops)
+            if used or ops[prod[j]][0] != "new" or len(prod) < 2:
+                continue
+            ren = lambda x: x - 1 if x > j else x
+            cand = []
+            for i, o in enumerate(ops):
+                if i == prod[j]:
+                    continue
+                if o[0] == "call":
+                    cand.append(("call", o[1], 0 if (o[1] == "sample" and o[2] == j) else ren(o[2])) + tuple(o[3:]))
+                elif o[0] in ("add", "value"):
+                    cand.append((o[0], ren(o[1])) + tuple(o[2:]))
+                else:
+                    cand.append(o)
+            if fails(cand):
+                ops, changed = cand, True
+                break
+    return ops
+
+
+def coq_hist_ops(ops):
+    out = []
+    for o in ops:
+        if o[0] == "new":
+            out.append(f"HNew {qlist(o[1])}")
+        elif o[0] == "add":
+            out.append(f"HAdd {C.cnat(o[1])} {qlist(o[2])}")
+        elif o[0] == "value":
+            out.append(f"HValue {C.cnat(o[1])}")
+        else:
+            m = {"grad": "MGrad", "cgrad": "MCostGrad", "sample": f"(MSample {qlist(o[3] or [])})",
+                 "pgrad": f"(MPostGrad {qlist(o[3] or [])})", "pcgrad": f"(MPostCostGrad {qlist(o[3] or [])})"}[o[1]]
+            out.append(f"HCall {m} {C.cnat(o[2])}")
+    return C.clist(out, ";\n    ")
+
+
+def coq_hist_obj(od):
+    if od["type"] == "comp":
+        return f"(OComp {coq_comp(od['comps'][0])})"
+    return f"(OJoint {coq_comps(od['comps'])} {C.cnat(od['n'])})"
+
+
+def describe_hist(od, ops):
+    d = {"type": od["type"], "n": od["n"], "rlen": od["rlen"], "style": od["style"], "exact": od["exact"],
+         "components": describe_joint({"n": od["n"], "comps": od["comps"]}, None)["components"],
+         "ops": [[("None" if x is None else ([str(v) for v in x] if isinstance(x, (list, tuple)) else x)) for x in o] for o in ops]}
+    if od["type"] == "post":
+        d["likelihood"] = L5.describe(od["lc"])
+    return d
+
+
+def undescribe_hist(d):
+    jc, _ = undescribe_joint({"n": d["n"], "components": d["components"], "theta": None})
+    od = {"type": d["type"], "n": d["n"], "rlen": d["rlen"], "style": d["style"], "exact": d["exact"], "comps": jc["comps"]}
+    if d["type"] == "post":
+        od["lc"] = L5.undescribe(d["likelihood"])
+    ops = []
+    for o in d["ops"]:
+        if o[0] == "call" and o[1] != "sample":
+            o = o[:3]              # likelihood gradients are recomputed from the likelihood
+        o = [([Fraction(v) for v in x] if isinstance(x, list) else (None if x == "None" else x)) for x in o]
+        ops.append(tuple(o))
+    return od, ops
+
+
 # ---------------------------------------------------------------- the run
 def run(rep: C.Report, tier: str) -> int:
     big = tier == "thorough"
@@ -475,6 +816,14 @@ def run(rep: C.Report, tier: str) -> int:
         rep.coverage["gaussnorm_audit"] = _a
     except C.ProofFailure as _e:
         rep.obligation(False, 2)
+        rep.violation("C06/proof", f"proof obligation no longer checks: {_e.what}",
+                      {"theorem_or_correspondence": _e.what, "log": _e.log[-1000:]}, False)
+    try:      # call histories: heap-level model of which array each method hands out (Properties/C06History.v)
+        _a = C.coq_audit("C06_history", HISTORY_THEOREMS, "IT.Properties.C06History")
+        rep.obligation(True, len(HISTORY_THEOREMS))
+        rep.coverage["history_audit"] = _a
+    except C.ProofFailure as _e:
+        rep.obligation(False, len(HISTORY_THEOREMS))
         rep.violation("C06/proof", f"proof obligation no longer checks: {_e.what}",
                       {"theorem_or_correspondence": _e.what, "log": _e.log[-1000:]}, False)
     r = C.rng_for(PROP, "cases")
@@ -686,7 +1035,7 @@ def run(rep: C.Report, tier: str) -> int:
                 scripts = [script[i * per:(i + 1) * per] for i in range(n_s)]
                 # the same tape once more: the samples the code drew and the cost it assigns to each
                 P.rng = ReplayRNG(script)
-                samples = [np.asarray(post.prior.sample(), dtype=float) for _ in range(n_s)]
+                samples = [np.array(post.prior.sample(), dtype=float, copy=True) for _ in range(n_s)]   # as drawn
                 costs = [float(post.cost(x)) for x in samples]
         except Exception as e:
             rep.violation("C06/exception", f"generate_initial_guesses failed: {e!r}",
@@ -707,17 +1056,61 @@ def run(rep: C.Report, tier: str) -> int:
                        f"{qlist(costs)}, {C.cnat(n_g)}, {obs})"))
         rep.count("D:distinct costs=" + ("all" if len(set(costs)) == len(costs) else "ties present"))
 
+
+    # ---------------- (H) call histories: what every array the caller still holds reads at the end
+    nH = 64 if not big else 600
+    hcases = []
+    for k in range(nH):
+        typ = ["joint", "post", "joint", "comp"][k % 4]
+        od = hist_object(r, typ)
+        ops = gen_history(r, od, big)
+        ex = exec_history(od, ops, k, ur)
+        rep.count(f"H:object={typ}")
+        rep.count("H:operations=" + ("5-8" if len(ops) <= 8 else "9-12" if len(ops) <= 12 else "13+"))
+        ncalls = sum(1 for o in ops if o[0] == "call" and o[1] != "sample")
+        rep.count("H:gradient-type calls=" + ("2-3" if ncalls <= 3 else "4+"))
+        argsof = [o[2] for o in ops if o[0] == "call" and o[1] != "sample"]
+        if len(set(argsof)) < len(argsof):
+            rep.count("H:same array object passed again")
+        if any(o[0] == "add" for o in ops):
+            rep.count("H:in-place update by the caller")
+        rep.case(("H", typ, describe_hist(od, ops)))
+        if k < 1:
+            rep.sample({"group": "H", "history": describe_hist(od, ex.get("ops", ops))})
+        if ex["status"] != "ok":
+            rep.violation("C06/exception", f"call history failed on valid inputs: {ex.get('error')}",
+                          {"case": describe_hist(od, ops), "group": "H"}, True)
+            continue
+        nums = [abs(float(x)) for a in ex["finals"] for x in a] + [abs(float(x)) for x in ex["mags"]]
+        for o in ex["ops"]:
+            for x in o[1:]:
+                if isinstance(x, (list, tuple)):
+                    nums += [abs(float(v)) if v is not None else math.inf for v in x]
+        if not all(math.isfinite(v) for v in nums):
+            rep.count("H:non-finite (implementation-only oracle)")
+            bad = oracle_history(od, ex)
+            if bad:
+                rep.violation("C06/history", bad[0], {"case": describe_hist(od, ops), "group": "H"}, True)
+            continue
+        exact = od["exact"] and od["type"] != "post"
+        tol = Fraction(0) if exact else HTOL * 64 * (1 + C.frac(max(nums + [0.0])))
+        rep.count("H:compared " + ("exactly" if exact else "to 1e-12 of the largest magnitude"))
+        fin = C.clist([qlist([C.frac(x) for x in a]) for a in ex["finals"]], ";\n    ")
+        hcases.append((("H", k, od, ops, ex),
+                       f"(mkHist {coq_hist_obj(od)}\n   {coq_hist_ops(ex['ops'])}\n   {fin}\n   {C.cq(tol)})"))
+
     # ---------------- run the exact correspondences inside Coq
     files, index = [], []
     CH = 60
-    for nm, lst, typ, chk in (
-            ("single", ccases, "list (comp * list Q * list Q * list bound * Q)", "check_ccase"),
-            ("joint", jcases, "list jcase", "check_jcase"),
-            ("guesses", dtexts, "list (list comp * nat * list (list Q) * list Q * nat * list (list Q))", "check_guesses_full")):
+    for nm, lst, typ, chk, hdr in (
+            ("single", ccases, "list (comp * list Q * list Q * list bound * Q)", "check_ccase", HEADER),
+            ("joint", jcases, "list jcase", "check_jcase", HEADER),
+            ("guesses", dtexts, "list (list comp * nat * list (list Q) * list Q * nat * list (list Q))", "check_guesses_full", HEADER),
+            ("history", hcases, "list hcase", "check_hcase", HEADER_H)):
         for i in range(0, len(lst), CH):
             chunk = lst[i:i + CH]
             body = "Definition cases : " + typ + " :=\n " + C.clist([t for _, t in chunk], ";\n ") + "."
-            pth = C.write_case_file(PROP, f"cases_{nm}_{i // CH}", HEADER, body, [f"failing {chk} cases 0"])
+            pth = C.write_case_file(PROP, f"cases_{nm}_{i // CH}", hdr, body, [f"failing {chk} cases 0"])
             files.append(pth)
             index.append([inf for inf, _ in chunk])
     outs = C.run_case_files(files, jobs=12)
@@ -754,7 +1147,20 @@ def run(rep: C.Report, tier: str) -> int:
         per_tag[tag] = per_tag.get(tag, 0) + 1
         if per_tag[tag] > (1 if tag == "E" else 2):
             continue
-        if tag == "E":
+        if tag == "H":
+            _, k, od, ops, ex = info
+            bad = oracle_history(od, ex)
+            if bad:
+                small = shrink_history(od, ops, k, ur)
+                ex2 = exec_history(od, small, k, ur)
+                bad2 = oracle_history(od, ex2) if ex2["status"] == "ok" else []
+                if not bad2:
+                    small, bad2 = ops, bad
+                rep.violation("C06/history", bad2[0], {"case": describe_hist(od, small), "group": "H"}, True)
+            else:
+                rep.violation("C06/correspondence", "call history: the arrays the caller holds at the end differ from the model, property not seen to fail",
+                              {"theorem_or_correspondence": "Model.PriorHistory.check_hcase", "case": describe_hist(od, ops)}, False)
+        elif tag == "E":
             _, k, c, th, o = info
             rep.violation("C06/uniform-gradient-alias",
                           f"UniformPrior.gradient returns {[float(x) for x in o['grad']]} (not the derivative 0 of a flat "
@@ -856,6 +1262,8 @@ def run(rep: C.Report, tier: str) -> int:
         "Gaussian normalisation (int exp(-x^2/2) = sqrt(2 pi)) is a named classical fact, not proved",
         "-1e100 outside the support is modelled as the value -10^100 (the true log-density is -infinity)",
         "gradient entries of priors with non power-of-two sigma / beta are compared to 1e-12 relative (1/sigma is rounded by the code)",
+        "call histories: likelihood.gradient is taken to return a new array (its value at the argument's contents is "
+        "supplied by the run); histories with a rounded 1/sigma or a likelihood are compared to 1e-12 of the largest magnitude involved",
     ]
     return rep.finish(
         level="proof",
@@ -868,7 +1276,11 @@ def run(rep: C.Report, tier: str) -> int:
              "with scales 1e-6..1e6, theta inside / edge / outside; (B) JointPrior: 1-7 indices shuffled and cut into "
              "1-5 components in random order, kinds from random pools (same-type merging in about half), dyadic "
              "hyper-parameters, theta inside / edge / outside / mixed, 12% invalid configurations; (C) Posterior with "
-             "each likelihood class; (D) generate_initial_guesses with 1-10 prior samples, ties in 40%; every case is "
+             "each likelihood class; (D) generate_initial_guesses with 1-10 prior samples, ties in 40%; (H) call "
+             "histories of 6-17 operations on one JointPrior / stand-alone prior / Posterior (new parameter vector, "
+             "gradient / cost_gradient / sample / Posterior.gradient / Posterior.cost_gradient on a held array, in-place "
+             "update by the caller of a parameter vector or of a returned array, density evaluation), every history with "
+             "two gradient calls at different contents and every held array re-read at the end; every case is "
              "non-trivial; distinct = distinct generated inputs")
 
 
@@ -900,9 +1312,20 @@ def replay(path):
     if "case" not in rp:
         print("replay names a broken theorem / correspondence:", rp.get("theorem_or_correspondence"))
         return 1
-    jc, th = undescribe_joint(rp["case"])
     group = rp.get("group", "B")
     ur = C.rng_for(PROP, "replay")
+    if group == "H":
+        od, ops = undescribe_hist(rp["case"])
+        ex = exec_history(od, ops, 0, ur)
+        if ex["status"] != "ok":
+            print("history failed:", ex.get("error"))
+            return 1
+        for j, (f, sh) in enumerate(zip(ex["finals"], ex["shadows"])):
+            print(f"held #{j}: reads {f.tolist()} at the end; handed over (plus the caller's own updates) as {sh.tolist()}")
+        bad = oracle_history(od, ex)
+        print("failures:", bad)
+        return 1 if bad else 0
+    jc, th = undescribe_joint(rp["case"])
     if group == "E":
         obj = build_comp(jc["comps"][0], 0)
         tharr = np.array([float(t) for t in th])
